@@ -7,6 +7,8 @@ Case grammar (first token = operation; see harness/C04.cpp and ocaml/C04_driver.
                      `blockm GR GC_1 M .. GC_2 M ..` is the same constructor on a grid of matrix ARGUMENTS (tables; with `hist`
                      objects after a call history; in a session also `@j` = a live object, the same one in several places)
 Output: matrix `M rows cols e11 e12 ..`, vector `V n e1 ..`, scalars as hex floats, booleans 0/1, `EXIT`.
+`v_print L` / `m_print T`: `stream << object` (operator<<) on a string stream with precision 17; output `P n item_1 .. item_n`, an item a number (read
+back with strtod) or the name of a fixed string of the source: LP "(" | CM " , " | RP ")" | LC RC LF RF the four corner characters | BAR "|" | TAB | NL.
 `m_show T` / `v_show L` print the object as Rows()/Columns()/operator[] (Size()/operator[]) see it; `v_at L i` is v[i].
 
 Call histories: `hist <op> <args>` is the operation <op> on operands that are not fresh: every matrix argument is
@@ -113,6 +115,16 @@ LEVEL_TEXT = ("Theorems (Coq/MathComp, every shape and every entry, over an arbi
               "entries and Sub_Matrix gives again such an object with one row and one column less), C04_return_row_size (the invariant alone "
               "suffices). For the producers outside the model (Inverse, Rotation_Matrix, QR factors, Round, Spherical_Coordinates) this is "
               "tested only (S4 predicates made:returned-shape / returned-entries / returned-object), the model gives no answer there. "
+              "The stream insertion operators operator<<(ostream, Vector / Matrix) (new in the model: coq/C04_Print.v, the list of items the "
+              "code inserts - numbers and the fixed strings of the source - with the entries read through the const operator[] as the code "
+              "does; run against the library on fresh operands, operands with a history and live objects in sessions, the stream set to 17 "
+              "digits so that every double is read back exactly): C04_print_vector (on an object that satisfies the invariant the printout "
+              "is \"(\" e_0 \" , \" ... \")\" item for item, every component once, in order, never an exit or a read outside the storage, "
+              "every dimension), C04_print_matrix (the printout is the concatenation of the rounds of the outer loop, its numbers are the "
+              "stored entries in row-major order each once, Rows()-1 line ends, never an exit / outside read, every shape) - induction over "
+              "the loops, any number type. How the stream turns a double into digits is the standard library's and not modelled; the corner / bar "
+              "items of the matrix printout are fixed by the model (compared on every run, S4 predicate printout-structure), the theorem "
+              "states them only through [m_round]. "
               "Not theorems: anything about rounding "
               "errors of sums (S4 only, a-priori slack); the clauses for shapes with zero rows (outside the quantifier; the theorems that "
               "rebuild a result through Matrix(vector<vector<double>>) assume a row); Angle() and Spherical_Coordinates are not part of C04.")
@@ -124,7 +136,8 @@ LEVEL_NOTE = ("Coq 8.16.1 + MathComp 1.15; theorems are axiom-free; hand-written
               "and claim nothing where an intermediate can overflow (sum of |terms| >= DBL_MAX): Norm()/Dot() are the plain "
               "accumulations, they return 0 / inf for entries below 1e-162 / above 1e154, which that model allows.")
 TOL = (1e-12, 0.0)
-TRUSTED = ["the int arguments of Matrix::Resize / Matrix::Assign are modelled by nat (only non-negative arguments are requested)",
+TRUSTED = ["operator<<: the formatting of one double by std::ostream is not modelled (an inserted number is one item); the harness sets the stream's precision to 17 and reads the text back with strtod",
+           "the int arguments of Matrix::Resize / Matrix::Assign are modelled by nat (only non-negative arguments are requested)",
            "unsigned int dimensions are modelled by nat (no wrap-around below 2^32 entries); int -> unsigned conversion of a negative Sub_Matrix index is modelled as 'not below any row count'"]
 ASSUMPTIONS = ["shapes with zero rows or zero columns are outside the property's quantifier (1<=m,n,k): the theorems about operations that rebuild their result through Matrix(vector<vector<double>>) assume at least one row (a 0 x n result is rebuilt as 0 x 0)"]
 
@@ -279,7 +292,7 @@ OBS_SIG = {"m_plus": "MM", "m_minus": "MM", "m_op_plus": "MM", "m_op_minus": "MM
            "law_trprod": "MM", "m_prod_s": "Ms", "m_op_mul_s": "Ms", "m_div": "Ms", "m_op_div": "Ms", "s_mul_m": "sM",
            "m_prod_v": "MV", "m_op_mul_v": "MV", "law_matvec": "MV", "v_mul_m": "VM", "law_vecmat": "VM",
            "transpose": "M", "trace": "M", "m_norm": "M", "square": "M", "symmetric": "M", "antisymmetric": "M", "diagonal": "M",
-           "law_trtr": "M", "law_mulid": "M", "m_show": "M", "sub_matrix": "Mii", "return_row": "Mi", "return_column": "Mi",
+           "law_trtr": "M", "law_mulid": "M", "m_show": "M", "m_print": "M", "v_print": "V", "sub_matrix": "Mii", "return_row": "Mi", "return_column": "Mi",
            "m_at": "Mii", "m_atc": "Mii",
            "v_add": "VV", "v_sub": "VV", "v_dot": "VV", "v_op_mul": "VV", "v_cross": "VV", "law_cross": "VV", "law_dotouter": "VV",
            "outer": "VV", "v_eq": "VV", "v_norm": "V", "v_normalized": "V", "law_trsum": "MM", "law_vecmat_tr": "VMV", "v_show": "V", "v_scale": "Vs", "v_div": "Vs", "s_mul_v": "sV",
@@ -785,7 +798,8 @@ class Session:
         if name in ("return_column",): st = f"{name} {me} {j}"
         elif name == "return_row": st = f"{name} {me} {i}"
         elif name in ("m_atc", "m_at", "sub_matrix"): st = f"{name} {me} {i} {j}"
-        elif name in ("m_show", "transpose", "m_norm", "square", "symmetric", "antisymmetric", "diagonal", "law_mulid", "law_trtr"): st = f"{name} {me}"
+        elif name == "m_show": st = f"{'m_print' if sp & 4 else 'm_show'} {me}"
+        elif name in ("transpose", "m_norm", "square", "symmetric", "antisymmetric", "diagonal", "law_mulid", "law_trtr"): st = f"{name} {me}"
         elif name == "trace": st = f"trace {me}" if R == C else f"m_norm {me}"
         elif name == "m_eq":
             o_ = s.other(k, (R, C)) or s.lit(probe, R, C); st = f"m_eq {me} {o_}" if sp & 1 else f"m_eq {o_} {me}"
@@ -815,7 +829,8 @@ class Session:
     def ask_v(s, k, probe):
         name, u, v, sp = probe; N = s.vs[k]; me = f"@{k}"
         pick = lambda l: l[sp % len(l)]
-        if name in ("v_show", "v_norm"): st = f"{name if name == 'v_show' or sp & 8 else 'v_normalized'} {me}"
+        if name == "v_show": st = f"{'v_print' if sp & 4 else 'v_show'} {me}"
+        elif name == "v_norm": st = f"{'v_norm' if sp & 8 else 'v_normalized'} {me}"
         elif name in ("v_atc", "v_at"): st = f"{name} {me} {int(u * N)}"
         elif name in ("dot", "vsum", "v_eq"):
             f = pick(["v_dot", "v_op_mul", "law_dotouter"]) if name == "dot" else pick(["v_add", "v_sub"]) if name == "vsum" else "v_eq"
@@ -1531,6 +1546,16 @@ def generate(rng, tier):
     life_cases(rng, big, add)
     made_cases(rng, big, add)
     amb_cases(rng, big, add, [c for c in cs if c is not None and len(c.line) < 1500])
+    # ---- stream insertion (operator<<(ostream, Vector / Matrix), model coq/C04_Print.v): every shape up to L, random shapes up to 8,
+    #      the whole double range (every entry must come back exactly), objects with a call history
+    for (m, n) in shapes: add(f"m_print {mtab(rmat(rng, m, n, KX()))}", "print")
+    for n in range(1, 9): add(f"v_print {flist(rvec(rng, n, KX()))}", "print", "vector")
+    for _ in range(2500 if big else 120):
+        add(f"m_print {mtab(rmat(rng, rng.randint(1, 8), rng.randint(1, 8), KX()))}", "print")
+        if big or rng.random() < 0.5: add(f"v_print {flist(rvec(rng, rng.randint(1, 8), KX()))}", "print", "vector")
+    for _ in range(400 if big else 40):
+        add(f"hist m_print {hist_mat(rng, rng.randint(1, 6), rng.randint(1, 6), K())[0]}", "history", "print")
+        add(f"hist v_print {hist_vec(rng, rng.randint(1, 6), K())[0]}", "history", "print", "vector")
     for n in range(1, 7):
         add(f"v_at {flist(rvec(rng, n))} {n - 1}", "vector", "v_at"); add(f"v_at {flist(rvec(rng, n))} {n}", "vector", "v_at"); add(f"v_at {flist(rvec(rng, n))} {n + 3}", "vector", "v_at")
     return [c for c in cs if c is not None]
@@ -1571,7 +1596,7 @@ def operands(line):
             for _ in range(r.int()):
                 for _ in range(r.int()): shp.append(shape(r.table()))
             return shp, True
-        if op in ("identity", "mat_diag", "mat_fill", "v_scale", "v_div", "s_mul_v", "v_norm", "v_normalized", "v_normalize", "v_eq", "mat_ctor", "v_at", "v_show"): return [], True
+        if op in ("identity", "mat_diag", "mat_fill", "v_scale", "v_div", "s_mul_v", "v_norm", "v_normalized", "v_normalize", "v_eq", "mat_ctor", "v_at", "v_show", "v_print"): return [], True
         if op == "law_vecmat_tr":
             v = r.list(); A = r.table(); w = r.list(); return [shape(A)], shape(A) == (len(v), len(w))
         if op == "law_trsum":
@@ -1982,6 +2007,34 @@ def _predicates(c, io):
         A = r.table()
         if ex: bad("defined", "terminated the process"); return out
         expect_mat(A, "state")
+    elif op in ("v_print", "m_print"):
+        # the text operator<< is defined to insert: "(" e_0 " , " e_1 ... ")"  resp. the rows between the corner / bar
+        # characters, entries separated by tabs, rows by line ends; every entry exactly once and exactly (17 digits)
+        if op == "v_print":
+            v = r.list(); E = ["LP"]
+            for i, x in enumerate(v): E += [x] + (["CM"] if i < len(v) - 1 else [])
+            E.append("RP")
+        else:
+            A = r.table(); R_, C_ = shape(A); E = []
+            for i in range(R_):
+                E.append("LC" if i == 0 else "LF" if i == R_ - 1 else "BAR")
+                for j in range(C_):
+                    E.append(A[i][j])
+                    E.append("TAB" if j < C_ - 1 else "RC" if i == 0 else "RF" if i == R_ - 1 else "BAR")
+                if i < R_ - 1: E.append("NL")
+        if ex: bad("defined", "printing terminated the process"); return out
+        if o.t[o.i] != "P": bad("printout", "no printout"); return out
+        o.i += 1; n = o.int(); G = o.t[o.i:o.i + n]; o.i += n
+        if n != len(E): bad("printout-items", f"{n} items were inserted, the definition has {len(E)}: got {G[:12]}")
+        else:
+            for k, (g, e) in enumerate(zip(G, E)):
+                if isinstance(e, str):
+                    if g != e: bad("printout-structure", f"item {k} is {g}, the definition has {e}"); break
+                else:
+                    try: gv = tokf(g)
+                    except Exception: gv = None
+                    if gv is None or not feq(gv, e) or (gv == 0.0 and math.copysign(1.0, gv) != math.copysign(1.0, e)):
+                        bad("printout-entries", f"item {k} is {g}, the entry there is {e!r}"); break
     elif op == "v_show":
         v = r.list()
         if ex: bad("defined", "terminated the process"); return out
